@@ -99,6 +99,12 @@ impl TorrentMaps {
         }
     }
 
+    /// Verification hook: number of torrents stored (ipv4, ipv6)
+    #[cfg(feature = "verif")]
+    pub fn verif_num_torrents(&self) -> (usize, usize) {
+        (self.ipv4.torrents.len(), self.ipv6.torrents.len())
+    }
+
     #[cfg(feature = "metrics")]
     pub fn update_torrent_metrics(&self) {
         self.ipv4.torrent_gauge.set(self.ipv4.torrents.len() as f64);
